@@ -5,3 +5,4 @@ import PlasVerif.Properties.C19
 import PlasVerif.Properties.C18
 import PlasVerif.Properties.C09
 import PlasVerif.Properties.C08
+import PlasVerif.Properties.C15
